@@ -36,7 +36,19 @@ fn check(src: &str) -> Option<Result<(usize, usize), String>> {
     let info = ProgramRegistryInfo::new(&program).ok()?;
     let (md, gas) = match calc_metadata(&program, &info, Default::default()) { Ok(m) => (m, true), Err(_) => (calc_metadata_ap_change_only(&program, &info).ok()?, false) };
     let casm = compile(&program, &info, &md, SierraToCasmConfig { gas_usage_check: gas, max_bytecode_size: usize::MAX }).ok()?;
-    let bytecode = casm.assemble().bytecode;
+    let assembled = casm.assemble();
+    // hints are attached to the pc of the instruction that carries them (C16 / C19 "hint offsets point at instructions")
+    {
+        let mut want: Vec<(usize, usize)> = vec![];
+        let mut o = 0usize;
+        for ins in &casm.instructions { if !ins.hints.is_empty() { want.push((o, ins.hints.len())); } o += ins.body.op_size(); }
+        let got: Vec<(usize, usize)> = assembled.hints.iter().map(|(pc, h)| (*pc, h.len())).collect();
+        if got != want {
+            let d = got.iter().zip(want.iter()).find(|(a, b)| a != b).map(|(a, b)| format!("assembled ({}, {} hints), instruction at ({}, {} hints)", a.0, a.1, b.0, b.1)).unwrap_or_else(|| format!("{} assembled hint entries for {} instructions with hints", got.len(), want.len()));
+            return Some(Err(format!("the assembled hints are not at the offsets of the instructions that carry them: {d}")));
+        }
+    }
+    let bytecode = assembled.bytecode;
     let ret_word: BigInt = cairo_lang_casm::casm!(ret;).instructions[0].assemble().encode()[0].clone();
     let mut starts: HashSet<usize> = HashSet::new();
     let mut o = 0usize;
